@@ -254,7 +254,7 @@ macro_rules! impl_vops_fixed {
         }
     )+ };
 }
-impl_vops_fixed!(F8x1, F8x2, F8x3, F16x1, F16x2, F32x1, F32x2, F64x1, F64x2, F64x3, F128x1, F128x2, Fux1, Fux2);
+impl_vops_fixed!(F8x1, F8x2, F8x3, F8x4, F16x1, F16x4, F32x1, F32x4, F64x1, F64x2, F64x4, F128x1, F128x4, Fux1, Fux4);
 
 macro_rules! impl_vops_growable {
     ($K:ident, $rt:expr) => {
@@ -360,14 +360,14 @@ macro_rules! impl_pops_row {
 }
 macro_rules! impl_pops_fixed_rows {
     ($($X:ident),+) => { $(
-        impl_pops_row!($X; fixed: F8x1, F8x2, F8x3, F16x1, F16x2, F32x1, F32x2, F64x1, F64x2, F64x3, F128x1, F128x2, Fux1, Fux2);
+        impl_pops_row!($X; fixed: F8x1, F8x2, F8x3, F8x4, F16x1, F16x4, F32x1, F32x4, F64x1, F64x2, F64x4, F128x1, F128x4, Fux1, Fux4);
         impl_pops!($X, D, yes);
         impl_pops!($X, A, yes);
         impl_pops!(D, $X, yes);
         impl_pops!(A, $X, yes);
     )+ };
 }
-impl_pops_fixed_rows!(F8x1, F8x2, F8x3, F16x1, F16x2, F32x1, F32x2, F64x1, F64x2, F64x3, F128x1, F128x2, Fux1, Fux2);
+impl_pops_fixed_rows!(F8x1, F8x2, F8x3, F8x4, F16x1, F16x4, F32x1, F32x4, F64x1, F64x2, F64x4, F128x1, F128x4, Fux1, Fux4);
 impl_pops!(D, D, yes);
 impl_pops!(D, A, yes);
 impl_pops!(A, D, yes);
@@ -500,24 +500,30 @@ fn unary<B: VOps>(v: &mut B, y: &Y, op: &str, f: &str, a: &Args) -> Out {
                 Out::Vec(bits)
             }
         }
-        "write_fail" => {
-            struct Failing(usize);
-            impl std::io::Write for Failing {
+        "write_fail" | "write_chunk" => {
+            // a writer that takes at most `chunk` bytes per call and fails once `room` bytes were taken
+            struct Picky {
+                room: usize,
+                chunk: usize,
+                got: Vec<u8>,
+            }
+            impl std::io::Write for Picky {
                 fn write(&mut self, buf: &[u8]) -> std::io::Result<usize> {
-                    if self.0 == 0 {
+                    if self.room == 0 && !buf.is_empty() {
                         return Err(std::io::Error::new(std::io::ErrorKind::Other, "writer full"));
                     }
-                    let k = buf.len().min(self.0);
-                    self.0 -= k;
+                    let k = buf.len().min(self.room).min(self.chunk);
+                    self.room -= k;
+                    self.got.extend_from_slice(&buf[..k]);
                     Ok(k)
                 }
                 fn flush(&mut self) -> std::io::Result<()> {
                     Ok(())
                 }
             }
-            let mut w = Failing(nu);
+            let mut w = if op == "write_fail" { Picky { room: nu, chunk: usize::MAX, got: vec![] } } else { Picky { room: usize::MAX, chunk: nu.max(1), got: vec![] } };
             match v.write(&mut w, endian(a)) {
-                Ok(()) => Out::Bytes(v.to_vec(endian(a))),
+                Ok(()) => Out::Bytes(w.got),
                 Err(_) => Out::ErrIo,
             }
         }
@@ -665,7 +671,7 @@ fn ord_cmp_same(x: &AnyBv, y: &AnyBv) -> Out {
             }
         };
     }
-    same!(F8x1, F8x2, F8x3, F16x1, F16x2, F32x1, F32x2, F64x1, F64x2, F64x3, F128x1, F128x2, Fux1, Fux2, D, A)
+    same!(F8x1, F8x2, F8x3, F8x4, F16x1, F16x4, F32x1, F32x4, F64x1, F64x2, F64x4, F128x1, F128x4, Fux1, Fux4, D, A)
 }
 
 /// HashSet membership within one type: a set holding x is asked for y
@@ -682,7 +688,7 @@ fn hs_contains_same(x: &AnyBv, y: &AnyBv) -> Out {
             }
         };
     }
-    same!(F8x1, F8x2, F8x3, F16x1, F16x2, F32x1, F32x2, F64x1, F64x2, F64x3, F128x1, F128x2, Fux1, Fux2, D, A)
+    same!(F8x1, F8x2, F8x3, F8x4, F16x1, F16x4, F32x1, F32x4, F64x1, F64x2, F64x4, F128x1, F128x4, Fux1, Fux4, D, A)
 }
 
 fn exec_inner(x: &mut AnyBv, y: &Y, op: &str, f: &str, a: &Args) -> Out {
